@@ -281,6 +281,15 @@ theorem runStepWith_rel (G : GlobalRel R) (d : StepDef) (body : Body) (callee : 
   · exact G.trans h0 (whileLoop_rel G _ _ _ fuel hloop (setIn d s))
   · exact G.trans h0 (hloop {} (setIn d s))
 
+/-- the whole of `Step.run_step` (the `description` notification included) -/
+theorem runStepDescribed_rel (G : GlobalRel R) (d : StepDef) (body : Body) (callee : CofCfg → Body) (fuel : Nat)
+    (hb : Pres R body) (hc : ∀ c, Pres R (callee c)) : Pres R (runStepDescribed d body callee fuel) := by
+  intro s
+  unfold runStepDescribed
+  split
+  · exact G.trans (rel_setIn G d s) (rel_raiseExc G _ _)
+  · exact runStepWith_rel G d body callee fuel hb hc s
+
 /-! ### primitive step bodies -/
 
 theorem cofStep_rel (G : GlobalRel R) (key : String) (isCall : Bool) : Pres R (cofStep key isCall) := by
